@@ -14,6 +14,20 @@ CHECKS = {
             "type-level witnesses (compile_fail + generic fns) and custom rules over the rustc-exported type-checked program"),
 }
 
+CHECKS["C17"] = ("proof",
+    "Canonical MIR (types by definition path, no spans, constants by content) of every function, every ADT definition and every "
+    "trait impl of the base configuration (no_std, no features) is identical in every other feature subset of the same profile; "
+    "surplus items belong to enumerated additive families enabled by their feature. Identical program => identical behaviour. "
+    "par_iter: body is one resolved rayon par_iter call on self.nodes, the place iter() walks.",
+    "5/C17", "Trusts rustc (same MIR => same behaviour), that core/alloc items behave the same under std, and rayon's slice iterator.",
+    "cross-configuration canonical-MIR identity (translation-validation style, static) + origin rule")
+CHECKS["C16"] = ("other",
+    "By-construction conditions on the derived serde impls of the five state types in the deser configuration: both impls derived, no serde "
+    "attributes, writer table == reader table == ADT field list (order, names, origins), plain field types, derived PartialEq. "
+    "Round-trip equality then follows from serde's derive contract; no serialisation is executed.",
+    "5/C16", "Trusts serde's derive and the data format for usize/i16/Option/Vec/enum tags, and T's own impls.",
+    "writer/reader table agreement read from the MIR of the derived impls + attribute and type-closure rules")
+
 PENDING = "check under construction in this build round (DESIGN.md section 10); not claimed until its engine part exists"
 
 NOT_APPLICABLE = {}
